@@ -111,8 +111,23 @@ class _Worker:
         return None
 
 
-def map_children(modname, funcname, cases, timeout=30, workers=None, env=None):
-    """[f(case) for case in cases], each in a child (workers are reused until they hang or die)."""
+def map_children(modname, funcname, cases, timeout=30, workers=None, env=None, confirm=True):
+    """[f(case) for case in cases], each in a child (workers are reused until they hang or die).
+    A case that ran out of time is run once more, with few other children beside it and four times the limit, before it is
+    reported as {"timeout": ...}: a loaded machine must not look like a hang."""
+    res = _map_children(modname, funcname, cases, timeout, workers, env)
+    if confirm:
+        late = [k for k, r in enumerate(res) if isinstance(r, dict) and "timeout" in r]
+        if late:
+            again = _map_children(modname, funcname, [cases[k] for k in late], timeout * 4, 4, env)
+            for k, r in zip(late, again):
+                if isinstance(r, dict) and "timeout" in r:
+                    r["timeout"] = timeout          # reported against the nominal limit; it did not return within 4x that either
+                res[k] = r
+    return res
+
+
+def _map_children(modname, funcname, cases, timeout, workers, env):
     workers = workers or core.NPROC
     e = dict(os.environ)
     e["PYTHONPATH"] = str(core.REPO / "src")
